@@ -37,3 +37,16 @@ func (r *RNG) Pick(ss []string) string { return ss[r.Intn(len(ss))] }
 
 // Fork derives an independent stream.
 func (r *RNG) Fork() *RNG { return &RNG{r.U64()} }
+
+// Perm returns a pseudo-random permutation of 0..n-1.
+func (r *RNG) Perm(n int) []int {
+	p := make([]int, n)
+	for i := range p {
+		p[i] = i
+	}
+	for i := n - 1; i > 0; i-- {
+		j := r.Intn(i + 1)
+		p[i], p[j] = p[j], p[i]
+	}
+	return p
+}
